@@ -115,6 +115,8 @@ def _execute(op, code, dec, em):
         after = (syndrome.tobytes(), code.stabilizers.tobytes(), code.logicals.tobytes(),
                  None if 'error' not in kw else kw['error'].tobytes())
         return {'result': res, 'mutated': [n for n, a, b in zip(('syndrome', 'stabilizers', 'logicals', 'ctx_error'), snap, after) if a != b]}
+    if op['op'] == 'decode_ftp':
+        return _decode_ftp(op, code, dec, em)
     if op['op'] == 'run':
         kw = {'max_runs': op.get('max_runs'), 'max_failures': op.get('max_failures'), 'random_seed': op['seed']}
         snap = (code.stabilizers.tobytes(), code.logicals.tobytes())
@@ -130,6 +132,88 @@ def _execute(op, code, dec, em):
         after = (code.stabilizers.tobytes(), code.logicals.tobytes())
         return {'result': res, 'mutated': [n for n, a, b in zip(('stabilizers', 'logicals'), snap, after) if a != b]}
     raise ValueError(op['op'])
+
+
+def _canon(r):
+    """canonical string of what decode / decode_ftp returned (recovery array or DecodeResult)"""
+    if hasattr(r, 'recovery'):
+        f = lambda a: 'None' if a is None else (bitstr(a) if hasattr(a, '__len__') else repr(a))   # noqa
+        return '%s|success=%s|lc=%s|cv=%s' % (f(r.recovery), r.success, f(r.logical_commutations), f(r.custom_values))
+    return bitstr(r)
+
+
+def ftp_arrays(op, code):
+    """The caller's side of a DIRECT decode_ftp call, built as qecsim.app does: step errors -> step syndromes, measurement
+    errors at t-1 and t applied to the syndrome at t.  layout: how the caller holds the 2-d syndrome array.
+    -> (syndrome, kwargs context arrays, {name: array} of every array the caller can still see afterwards)"""
+    from qecsim import paulitools as pt
+    T = op['T']
+    step_errors = [bits(s) for s in op['step_errors']]
+    step_meas = [bits(s) for s in op['step_meas']]
+    assert len(step_errors) == T and len(step_meas) == T
+    step_syn = [pt.bsp(e, code.stabilizers.T) for e in step_errors]
+    rows = [step_meas[t - 1] ^ step_syn[t] ^ step_meas[t] for t in range(T)]
+    owned = {}
+    layout = op.get('layout', 'own')
+    if layout == 'view':                 # one sample out of a batch the caller keeps: a view into a bigger array
+        batch = np.zeros((3, T, len(rows[0])), dtype=int)
+        batch[0], batch[2] = 1, np.array(rows)[::-1]
+        batch[1] = np.array(rows)
+        syndrome = batch[1]
+        owned['syndrome-batch'] = batch
+    elif layout == 'fortran':            # column-major / transposed storage
+        syndrome = np.asfortranarray(np.array(rows))
+    else:
+        syndrome = np.array(rows)
+    owned['syndrome'] = syndrome
+    kw = {}
+    if op.get('ctx') in ('full', 'meas'):
+        kw['step_measurement_errors'] = step_meas
+        for t, a in enumerate(step_meas):
+            owned['step_measurement_errors[%d]' % t] = a
+    if op.get('ctx') == 'full':
+        kw['error'] = np.bitwise_xor.reduce(step_errors)
+        kw['step_errors'] = step_errors
+        owned['error'] = kw['error']
+        for t, a in enumerate(step_errors):
+            owned['step_errors[%d]' % t] = a
+    owned['stabilizers'], owned['logicals'] = code.stabilizers, code.logicals
+    if layout == 'readonly':             # e.g. a memory-mapped / shared sample the caller must not see changed
+        syndrome.flags.writeable = False
+    return syndrome, kw, owned
+
+
+def _decode_ftp(op, code, dec, em):
+    """Direct DecoderFTP.decode_ftp call as a user makes it: every array the caller holds is snapshotted before and
+    compared bit for bit afterwards; the SAME array objects are then decoded again (the recovery must be the same)."""
+    from qecsim import paulitools as pt
+    syndrome, ctx_kw, owned = ftp_arrays(op, code)
+    kw = dict(ctx_kw, error_model=em, error_probability=op['p'])
+    if op.get('q') is not None:
+        kw['measurement_error_probability'] = op['q']
+    snap = {k: (a.shape, a.tobytes()) for k, a in owned.items()}
+    snap_str = {k: bitstr(np.asarray(a).ravel()) for k, a in owned.items() if k not in ('stabilizers', 'logicals')}
+    total = np.bitwise_xor.reduce(np.array(syndrome))        # (a copy, taken before the call)
+
+    def call():
+        try:
+            r = dec.decode_ftp(code, op['T'], syndrome, **kw)
+            res = _canon(r)
+            rec = r.recovery if hasattr(r, 'recovery') else r
+            if rec is not None and not np.array_equal(pt.bsp(np.array(rec), code.stabilizers.T), total):
+                res += ' !syndrome'
+            return res
+        except Exception as e:  # noqa
+            return 'ERR ' + type(e).__name__ + ' ' + str(e)[:80]
+    res = call()
+    changed = [k for k, a in owned.items() if (a.shape, a.tobytes()) != snap[k]]
+    out = {'result': res, 'mutated': changed}
+    if changed:
+        out['mutated_detail'] = {k: [snap_str[k], bitstr(np.asarray(owned[k]).ravel())] for k in changed if k in snap_str}
+    res2 = call()                                            # the caller decodes the very same arrays again
+    if res2 != res:
+        out['redecode'] = res2
+    return out
 
 
 def main():
